@@ -14,6 +14,7 @@ from __future__ import annotations
 import numpy as np
 
 KINDS_CACHING = ("calc", "dist", "msum")
+POISON = 77.0   # a value on which "fragile" node functions raise (C01: failing update in the middle of a sweep)
 
 
 class SNode:
@@ -147,10 +148,15 @@ class Program:
         counters = self.counters
         is_group = [self.nodes[p].kind == "group" for p in nd.parents]
         needs_seed = nd.needs_seed
+        fragile = bool(self.units[nd.unit].get("fragile")) if nd.unit is not None else False
 
         def f(*xs, seed=None):
             counters[sid] = counters.get(sid, 0) + 1
             out = jnp.asarray(coef[0], jnp.float32)
+            if fragile:
+                for x in xs:
+                    if not hasattr(x, "args") and float(np.max(np.asarray(x))) == POISON:
+                        raise ValueError("fragile node function received the poison value")
             for c, x, g in zip(coef[1:], xs, is_group):
                 if g:
                     tot = 0.0
@@ -347,11 +353,49 @@ class Program:
             elif n.kind == "seed":
                 self.cur_inputs[n.sid] = np.asarray(n.obj.value)
 
-    def evaluate(self, inputs=None):
-        """From-scratch values of every spec node (numpy float32 / exact)."""
+    def _eval_node(self, n, val, inputs=None):
         import jax.numpy as jnp
         import tensorflow_probability.substrates.jax.distributions as tfd
 
+        inputs = self.cur_inputs if inputs is None else inputs
+        if n.kind in ("input", "seed"):
+            return inputs[n.sid]
+        if n.kind == "proxy":
+            return val[n.parents[0]]
+        if n.kind == "group":
+            return [val[p] for p in n.parents]
+        if n.kind in ("calc", "transient"):
+            out = np.float32(n.coef[0])
+            ps = [p for p in n.parents if self.nodes[p].kind != "seed"]
+            if n.unit is not None and self.units[n.unit].get("fragile"):
+                for p in ps:
+                    if self.nodes[p].kind != "group" and float(np.max(np.asarray(val[p]))) == POISON:
+                        raise ValueError("poison")
+            for c, p in zip(n.coef[1:], ps):
+                x = val[p]
+                if self.nodes[p].kind == "group":
+                    x = sum(np.asarray(a, np.float32) for a in x)
+                out = out + np.float32(c) * np.asarray(x, np.float32)
+            if n.needs_seed:
+                sp = [p for p in n.parents if self.nodes[p].kind == "seed"][0]
+                out = out + np.float32(int(np.asarray(val[sp])[-1]) % 4)
+            return np.asarray(out, np.float32)
+        if n.kind == "dist":
+            ps = [p for p in n.parents if self.nodes[p].kind != "seed"]
+            loc, at = val[ps[0]], val[ps[-1]]
+            lp = tfd.Normal(loc=jnp.asarray(loc), scale=n.scale).log_prob(jnp.asarray(at))
+            if not n.per_obs:
+                lp = lp.sum()
+            return np.asarray(lp)
+        if n.kind == "msum":
+            tot = np.float64(0.0)
+            for p in n.parents:
+                tot = tot + np.asarray(val[p], np.float64).sum()
+            return np.asarray(tot, np.float32)
+        raise ValueError(n.kind)
+
+    def evaluate(self, inputs=None):
+        """From-scratch values of every spec node (numpy float32 / exact)."""
         inputs = self.cur_inputs if inputs is None else inputs
         val: dict[int, object] = {}
         for n in self.nodes:
@@ -360,35 +404,24 @@ class Program:
         for n in self.nodes:
             if n.kind in ("input", "seed"):
                 continue
-            elif n.kind == "proxy":
-                val[n.sid] = val[n.parents[0]]
-            elif n.kind == "group":
-                val[n.sid] = [val[p] for p in n.parents]
-            elif n.kind in ("calc", "transient"):
-                out = np.float32(n.coef[0])
-                ps = [p for p in n.parents if self.nodes[p].kind != "seed"]
-                for c, p in zip(n.coef[1:], ps):
-                    x = val[p]
-                    if self.nodes[p].kind == "group":
-                        x = sum(np.asarray(a, np.float32) for a in x)
-                    out = out + np.float32(c) * np.asarray(x, np.float32)
-                if n.needs_seed:
-                    sp = [p for p in n.parents if self.nodes[p].kind == "seed"][0]
-                    out = out + np.float32(int(np.asarray(val[sp])[-1]) % 4)
-                val[n.sid] = np.asarray(out, np.float32)
-            elif n.kind == "dist":
-                ps = [p for p in n.parents if self.nodes[p].kind != "seed"]
-                loc, at = val[ps[0]], val[ps[-1]]
-                lp = tfd.Normal(loc=jnp.asarray(loc), scale=n.scale).log_prob(jnp.asarray(at))
-                if not n.per_obs:
-                    lp = lp.sum()
-                val[n.sid] = np.asarray(lp)
-            elif n.kind == "msum":
-                tot = np.float64(0.0)
-                for p in n.parents:
-                    tot = tot + np.asarray(val[p], np.float64).sum()
-                val[n.sid] = np.asarray(tot, np.float32)
+            val[n.sid] = self._eval_node(n, val, inputs)
         return val
+
+    def evaluate_one(self, sid):
+        """From-scratch value of one node; raises ValueError if a fragile function meets the poison."""
+        cache = {}
+
+        def ev(i):
+            if i in cache:
+                return cache[i]
+            n = self.nodes[i]
+            sub = {}
+            for q in n.parents:
+                sub[q] = ev(q)
+            v = self._eval_node(n, sub)
+            cache[i] = v
+            return v
+        return ev(sid)
 
     def settable(self):
         """(sid, how, obj) for every input that can be assigned through the public API."""
@@ -408,7 +441,7 @@ class Program:
 # ---------------------------------------------------------------------------
 
 def gen_program(rng, *, n_units=(3, 12), allow_seed=True, allow_unnamed=True, allow_group=True,
-                p_dist=0.5, force_shape=None, p_user_lp=0.0) -> dict:
+                p_dist=0.5, force_shape=None, p_user_lp=0.0, p_fragile=0.0) -> dict:
     n = int(rng.integers(n_units[0], n_units[1] + 1))
     shape = force_shape if force_shape is not None else ([] if rng.random() < 0.6 else [3])
     units = []
@@ -450,6 +483,8 @@ def gen_program(rng, *, n_units=(3, 12), allow_seed=True, allow_unnamed=True, al
             u = {"kind": "calc", "parents": ps, "coef": coefs(len(ps)), "name": name(ui, "c")}
             if allow_seed and rng.random() < 0.12 and u["name"]:
                 u["needs_seed"] = True
+            if p_fragile and rng.random() < p_fragile and not any(units[q]["kind"] == "group" for q in ps):
+                u["fragile"] = True
             units.append(u)
         elif r < 0.68:
             ps = pick_parents()
